@@ -4,7 +4,7 @@ Spec: spec/TestRunner.tla -- tests run in file order in a fresh frame and the
 stack is reset between tests; a test started on a dirty stack would have an
 unspecified verdict, so VerdictIndependent and SummaryHonest hold exactly
 because Reset removes every residue.  TLC checks both invariants on every file
-of up to MaxTests tests over 7 body kinds x every filter, and prints each
+of up to MaxTests tests over 8 body kinds x every filter, and prints each
 configuration with its verdict vector, counts and exit status.  Binding: the
 file is generated and `garden test [-n filter]` is run; the parsed "Failed:"
 lines, the summary counts and the process exit status must equal the model's."""
@@ -15,7 +15,7 @@ import shutil
 from common import SPEC, Check, ToolError, garden, pmap, scratch_dir, tlc, tlc_ok, vacuity
 
 PRE = ("fun deep(n: Int): Int {\n  if n > 0 {\n    for x in [1] {\n      if True {\n        throw(\"deep\")\n      }\n    }\n  }\n  n\n}\n"
-       "fun outer(n: Int): Int {\n  let l = [n, deep(n)]\n  n\n}\nfun fine(n: Int): Int {\n  n + 1\n}\n")
+       "fun outer(n: Int): Int {\n  let l = [n, deep(n)]\n  n\n}\nfun fine(n: Int): Int {\n  n + 1\n}\nfun must_pos(n: Int) {\n  assert(n > 0)\n}\n")
 BODY = {
     "pass": "assert(1 == 1)",
     "assertfail": "assert(2 == 1 + 2)",
@@ -24,6 +24,7 @@ BODY = {
     "leftover": "let u = (1, [2, deep(4)], 3)",
     "passblocks": "for q in [1, 2] {\n    if q == 2 {\n      let inner = q\n      assert(inner == 2)\n    }\n  }",
     "passcall": "assert(fine(fine(1)) == 3)",
+    "asserthelper": "must_pos(0 - 2)\n  assert(fine(1) == 5)",
 }
 PASSING = {"pass", "passblocks", "passcall"}
 
@@ -111,7 +112,7 @@ def run(tier, seed):
             ck.fail(key, f"{key}: {problem}", {"cmd": "garden test t.gdn" + ("" if c["filter"] == 0 else " -n ..."), "src": render(kinds), "filter": c["filter"], "stdout": out[-400:]})
     vacuity(mixed > 30, f"only {mixed} configurations mix passing and failing tests")
     ck.assumptions += ["a test's name decides selection by substring, as -n does; names are generated so that each filter selects exactly the intended tests"]
-    return ck.finish(rule=f"every file of up to {maxt} tests over 7 body kinds (pass, assertion failure, throw three frames deep inside nested blocks, wrong-typed built-in call, failure with half-built values, passing with nested blocks, passing with calls) x every filter (none, each single test, passing-kind names); "
+    return ck.finish(rule=f"every file of up to {maxt} tests over 8 body kinds (pass, assertion failure, throw three frames deep inside nested blocks, wrong-typed built-in call, failure with half-built values, passing with nested blocks, passing with calls, assertion failing inside a helper with more of the body pending) x every filter (none, each single test, passing-kind names); "
                           "non-trivial = configurations with both passing and failing selected tests", exhaustive=(tier == "thorough"))
 
 
